@@ -16,6 +16,10 @@ package main
 //   two-links-dup-answers  two links on ONE registry, each with a hand-written peer that answers "<tag>|<arg>"; the
 //                      peer of link A answers every call several times (the surplus answers find no waiter); callers
 //                      hammer both links: a call made through link B's remote never returns an answer of A's peer (C13)
+//   many-links-new-names  four links of one registry decode, at the same time, well-formed requests for function names the
+//                      process has never seen: every request is answered, the process survives              (C05, C06)
+//   bad-response-while-closure-runs  the first fatal failure is found INSIDE a call whose closure is still running: Link
+//                      returns it promptly                                                                   (C16, C03)
 //   error-response-write-fails  the handler returns an error and the transport refuses the response: Link returns
 //                      the transport's error                                                            (C16, C03)
 
@@ -72,6 +76,7 @@ type rpRemote struct {
 	Get  func(ctx context.Context) (int, error)
 	Nop  func(ctx context.Context) error
 	Echo func(ctx context.Context, s string) (string, error)
+	Each func(ctx context.Context, n int, spawn bool, cb func(ctx context.Context, i int) (int, error)) (string, error)
 }
 
 var rawPeerScenarios = []string{"value-for-error-only", "dup-responses", "bad-response-value", "bad-closure-id", "bad-closure-id-spawned", "error-response-write-fails", "pipelined-big-args"}
@@ -108,6 +113,13 @@ func subRawPeer(args []string) {
 			}
 			q.Close(errors.New("closed"))
 			time.Sleep(20 * time.Millisecond)
+		}
+		fmt.Println("DONE")
+		return
+	}
+	if sc == "many-links-new-names" {
+		for _, m := range manyLinksNewNames(12, 1500) {
+			fmt.Println("BAD " + m)
 		}
 		fmt.Println("DONE")
 		return
@@ -327,6 +339,58 @@ func subRawPeer(args []string) {
 				return
 			}
 		}
+	case "bad-response-while-closure-runs":
+		// our call passes a closure; the peer invokes it (it does not return: busy with something of its own) and THEN
+		// answers the call with a value that does not decode into the declared result type: the first fatal failure is
+		// found inside that call. Link must return it promptly — the call's deferred release of the closure may not
+		// wait for the closure's body.
+		entered := make(chan struct{}, 1)
+		release := make(chan struct{})
+		defer close(release)
+		go rem.Each(context.Background(), 1, false, func(ctx context.Context, i int) (int, error) {
+			select {
+			case entered <- struct{}{}:
+			default:
+			}
+			<-release
+			return 0, nil
+		})
+		var fr []byte
+		{
+			ch := make(chan []byte, 1)
+			go func() { b, _ := outReq.Get(); ch <- b }()
+			select {
+			case fr = <-ch:
+			case <-time.After(watchdog):
+				fmt.Println("BAD no request written")
+				return
+			}
+		}
+		var req struct {
+			Call string            `json:"call"`
+			Args []json.RawMessage `json:"args"`
+		}
+		json.Unmarshal(fr, &req)
+		if len(req.Args) != 3 {
+			fmt.Printf("BAD unexpected request %s\n", fr)
+			return
+		}
+		in.Put([]byte(fmt.Sprintf(`{"call":"cc1","function":"CallClosure","args":[%s,[0]]}`, req.Args[2])))
+		select {
+		case <-entered:
+		case <-time.After(watchdog):
+			fmt.Println("BAD the closure was never invoked")
+			return
+		}
+		inRes.Put([]byte(fmt.Sprintf(`{"call":%q,"value":12345,"err":""}`, req.Call)))
+		select {
+		case err := <-linkErr:
+			if err == nil || !strings.Contains(err.Error(), "unmarshal") {
+				fmt.Printf("BAD Link returned %v; want the decode error of the response — the first failure of the link\n", err)
+			}
+		case <-time.After(2 * time.Second):
+			fmt.Println("BAD a response that cannot be decoded arrived while the closure passed by that call was still running on our side: 2 s later Link still blocks on the dead link (the failing call waits for its own closure before it reports the error)")
+		}
 	case "error-response-write-fails":
 		atomic.StoreInt32(&failWrite, 1)
 		in.Put([]byte(`{"call":"c1","function":"Fail","args":[]}`))
@@ -349,16 +413,18 @@ func subRawPeer(args []string) {
 // runRawPeer runs the scenarios relevant to prop in child processes.
 func runRawPeer(rep *Report, prop string) {
 	rel := map[string][]string{
-		"C05": {"dup-responses", "bad-closure-id-spawned"},
+		"C05": {"dup-responses", "bad-closure-id-spawned", "many-links-new-names"},
 		"C15": {"dup-responses", "nil-hooks-precancelled"},
 		"C14": {"nil-hooks-precancelled"},
 		"C09": {"bad-response-value", "value-for-error-only", "pipelined-big-args"},
 		"C08": {"pipelined-big-args"},
-		"C06": {"nil-hooks-precancelled", "bad-response-value", "bad-closure-id", "bad-closure-id-spawned", "pipelined-big-args"},
-		"C16": {"bad-closure-id", "error-response-write-fails"},
+		"C06": {"nil-hooks-precancelled", "bad-response-value", "bad-closure-id", "bad-closure-id-spawned", "pipelined-big-args", "many-links-new-names"},
+		"C16": {"bad-closure-id", "error-response-write-fails", "bad-response-while-closure-runs"},
 		"C17": {"bad-closure-id", "value-for-error-only"},
-		"C03": {"error-response-write-fails"},
+		"C03": {"error-response-write-fails", "bad-response-while-closure-runs"},
 		"C13": {"two-links-dup-answers"},
+		"C12": {"dup-responses"},
+		"C19": {"dup-responses"},
 		"C11": {"bad-closure-id"},
 	}[prop]
 	for _, sc := range rel {
@@ -476,4 +542,87 @@ func subTwoLinksDup() {
 		l.outReq.Close(nil)
 	}
 	fmt.Printf("DONE %d calls\n", atomic.LoadInt64(&calls))
+}
+
+// manyLinksNewNames: n links on ONE registry, each with a raw peer that pipelines `per` well-formed requests for
+// function names nobody has asked for before in this process (valid paths through a self-referential object, so
+// every request is answered). All links decode at the same time. Returns the problems found.
+type mlLocal struct {
+	L, R *mlLocal
+}
+
+func (l *mlLocal) Ping(ctx context.Context) (int, error) { return 1, nil }
+
+func manyLinksNewNames(n, per int) []string {
+	local := &mlLocal{}
+	local.L, local.R = local, local
+	reg := rpc.NewRegistry[struct{}, json.RawMessage](local, nil)
+	ctx, cancel := context.WithCancel(context.Background())
+	defer cancel()
+	var mu sync.Mutex
+	var probs []string
+	bad := func(f string, a ...any) { mu.Lock(); probs = append(probs, fmt.Sprintf(f, a...)); mu.Unlock() }
+	var wg sync.WaitGroup
+	start := make(chan struct{})
+	for li := 0; li < n; li++ {
+		li := li
+		in, inRes, out := NewQueue(), NewQueue(), NewQueue()
+		linkErr := make(chan error, 1)
+		go func() {
+			linkErr <- reg.LinkMessage(ctx,
+				func(b json.RawMessage) error { return nil }, func(b json.RawMessage) error { return out.Put(b) },
+				func() (json.RawMessage, error) { b, e := in.Get(); return b, e }, func() (json.RawMessage, error) { b, e := inRes.Get(); return b, e },
+				func(v any) (json.RawMessage, error) { b, err := json.Marshal(v); return b, err },
+				func(data json.RawMessage, v any) error { return json.Unmarshal([]byte(data), v) }, nil)
+		}()
+		wg.Add(1)
+		go func() {
+			defer wg.Done()
+			defer func() { in.Close(nil); inRes.Close(nil); out.Close(nil) }()
+			<-start
+			for i := 0; i < per; i++ {
+				// a path unique to (link, i): binary digits of i as L/R steps, prefixed by the link's own digits
+				path := ""
+				for b, x := 0, li*100000+i+1; x > 0 && b < 24; b, x = b+1, x/2 {
+					path += []string{"L.", "R."}[x%2]
+				}
+				in.Put([]byte(fmt.Sprintf(`{"call":"m%d-%d","function":"%sPing","args":[]}`, li, i, path)))
+			}
+			got := 0
+			for got < per {
+				type res struct {
+					b   []byte
+					err error
+				}
+				ch := make(chan res, 1)
+				go func() { b, err := out.Get(); ch <- res{b, err} }()
+				select {
+				case r := <-ch:
+					if r.err != nil {
+						bad("link %d: response stream ended after %d of %d answers", li, got, per)
+						return
+					}
+					var resp struct {
+						Value json.RawMessage `json:"value"`
+						Err   string          `json:"err"`
+					}
+					json.Unmarshal(r.b, &resp)
+					if resp.Err != "" || string(resp.Value) != "1" {
+						bad("link %d: a well-formed request for a valid (never seen) path was answered with %s", li, r.b)
+						return
+					}
+					got++
+				case e := <-linkErr:
+					bad("link %d ended while well-formed requests were being served: %v", li, e)
+					return
+				case <-time.After(watchdog):
+					bad("link %d: only %d of %d requests answered", li, got, per)
+					return
+				}
+			}
+		}()
+	}
+	close(start)
+	wg.Wait()
+	return probs
 }
